@@ -123,6 +123,45 @@ pub fn run_c12(tier: &str, seed: u64, report: &mut Report) {
                 report.hit("subtree-restore");
             }
         }
+        // ---- the same for an INTERRUPTED second version (its listing is stitched from two bands)
+        {
+            let mut t2 = tree.clone();
+            let keys: Vec<String> = t2.nodes.keys().filter(|k| *k != "/").cloned().collect();
+            for k in keys.iter().filter(|_| rng.chance(1, 4)) {
+                let pref = format!("{k}/");
+                t2.nodes.retain(|p, _| p != k && !p.starts_with(&pref));
+            }
+            std::fs::remove_dir_all(&src).unwrap();
+            t2.materialize(&src);
+            let p2 = BackupParams { max_entries_per_hunk: 2, max_block_size: 64, small_file_cap: 8, owner: true, exclude: vec![] };
+            let scratch = work.path().join("scratch");
+            crate::hist::copy_dir(&arch, &scratch);
+            let dry = real_backup(&scratch, &src, &p2, IceptConfig::default());
+            let n = dry.steps.max(2);
+            let k = (n * (40 + rng.below(55))) / 100;
+            real_backup(&arch, &src, &p2, IceptConfig { crash_at: Some(k.min(n - 2)), ..Default::default() });
+            let (state2, _) = abstract_archive(&arch);
+            if crate::hist::all_bands(&state2).contains(&1) && !crate::hist::complete_bands(&state2).contains(&1) {
+                let full1 = real_list(&arch, &Sel::Band(1), "/", &[], IceptConfig::default());
+                if full1.result.starts_with("result ok") {
+                    let full1_apaths: Vec<String> = full1.lines.iter().map(|l| entry_apath(l)).collect();
+                    session.load_store(&state2);
+                    for s in &subtrees {
+                        let case = json!({"op": "list-subtree-of-interrupted-version", "case_seed": case_seed, "subtree": s, "full_listing": full1_apaths});
+                        let l = real_list(&arch, &Sel::Band(1), s, &[], IceptConfig::default());
+                        let got: Vec<String> = l.lines.iter().map(|x| entry_apath(x)).collect();
+                        let expect: Vec<String> = full1_apaths.iter().filter(|a| under(s, a)).cloned().collect();
+                        report.case(&format!("{case_seed}/i/{s}"), true);
+                        report.hit("subtree:of-interrupted-version");
+                        if got != expect {
+                            report.oracle_fail("subtree-listing-interrupted", case.clone(), "listing a subtree of an interrupted version is not the filter of its full listing", json!({"got": got, "expected": expect}));
+                        }
+                        let i_req = session.push(format!("list b0001 {} 0", crate::model::s(s.as_bytes())));
+                        pend.push((case, l, i_req));
+                    }
+                }
+            }
+        }
         if i == 0 {
             report.sample(json!({"case_seed": case_seed, "paths": obs.iter().map(|o| o.apath.clone()).collect::<Vec<_>>(), "subtrees_tried": subtrees.len()}));
         }
